@@ -44,20 +44,28 @@ def scan_forbidden():
     return bad
 
 
+EXTRA_MODULES = {"C06": ["C06Refine"]}     # further theorem files that belong to a property
+
+
+def prop_modules(prop_id):
+    return [m for m in [prop_id] + EXTRA_MODULES.get(prop_id, [])
+            if os.path.exists(os.path.join(runner.LEAN, "NetflowModel", "Props", m + ".lean"))]
+
+
 def theorem_names(prop_id):
-    path = os.path.join(runner.LEAN, "NetflowModel", "Props", prop_id + ".lean")
-    if not os.path.exists(path):
-        return []
-    txt = open(path).read()
-    txt = re.sub(r"/-.*?-/", "", txt, flags=re.S)
-    return re.findall(r"^theorem\s+([A-Za-z0-9_.']+)", txt, flags=re.M)
+    names = []
+    for m in prop_modules(prop_id):
+        txt = open(os.path.join(runner.LEAN, "NetflowModel", "Props", m + ".lean")).read()
+        txt = re.sub(r"/-.*?-/", "", txt, flags=re.S)
+        names += re.findall(r"^theorem\s+([A-Za-z0-9_.']+)", txt, flags=re.M)
+    return names
 
 
 def audit_axioms(prop_id, names, workdir):
     """#print axioms for every theorem of Props/Cnn.lean"""
     if not names:
         return {}, ""
-    src = "import NetflowModel.Props.%s\nopen Netflow.Props\n" % prop_id + "".join("#print axioms %s\n" % n for n in names)
+    src = "".join("import NetflowModel.Props.%s\n" % m for m in prop_modules(prop_id)) + "open Netflow.Props\n" + "".join("#print axioms %s\n" % n for n in names)
     path = os.path.join(workdir, "Audit_%s.lean" % prop_id)
     open(path, "w").write(src)
     rc, out = runner.sh(["lake", "env", "lean", path], cwd=runner.LEAN, timeout=1800)
@@ -174,7 +182,7 @@ def main():
 
     # ---- 2. proof obligations
     names = theorem_names(pid)
-    targets = ["NetflowModel.Props." + pid] if names else []
+    targets = ["NetflowModel.Props." + m for m in prop_modules(pid)] if names else []
     rc, bout, bsec = runner.lake_build(targets + ["nfdriver"])
     build_ok = rc == 0
     forbidden = scan_forbidden()
